@@ -210,7 +210,9 @@ func (c *Connection) handleMessage(ctx context.Context, data []byte) {
 			Variables     map[string]interface{} `json:"variables"`
 			OperationName string                 `json:"operationName"`
 		}
-		if err := jsoniter.Unmarshal(msg.Payload, &payload); err != nil {
+		// decoded with encoding/json, like the body of an HTTP request (graphql.NewRequestFromHTTP),
+		// so that the same request text is read as the same request on every transport
+		if err := json.Unmarshal(msg.Payload, &payload); err != nil {
 			// ignore malformed messages
 			return
 		}
